@@ -331,4 +331,4 @@ def run(ctx):
             ev.count("eval_error")
         return f
 
-    ctx.campaign("main", chains(), oracle, max_examples=ctx.n(1200, 320000))
+    ctx.campaign("main", chains(), oracle, max_examples=ctx.n(2400, 320000))
